@@ -551,7 +551,7 @@ def replay(path):
         tdir, stats = vlib.gen_traces("file:" + planf, "quick", payload.get("seed", 0), "replay_one", shards=1)
     agg = vlib.validate_dir(tdir, "replay_one")
     idx = vlib.load_index(tdir)
-    mine = [v for v in agg["verdicts"] if prop in v.get("props", [])]
+    mine = [v for v in agg["verdicts"] if vlib.concerns(prop, v, payload.get("driver", ""), idx)]
     for key, g in idx.items():
         if key[0] == "g":
             for r in g["runs"]:
